@@ -313,6 +313,16 @@ RResult read_kind(const std::string& rk, const std::vector<std::uint8_t>& bytes,
         auto st = de.Read(&dest);
         finish(r, st, dest, h.n - de.reader().remaining());
       }
+    } else if (rk.rfind("b:", 0) == 0 && rk.size() > 7 && rk.compare(rk.size() - 7, 7, ":stream") == 0) {
+      // BoundedReader over a StreamReader: the wrapped reader's Ensure never refuses, the budget is the only guard
+      std::size_t limit = std::strtoull(rk.c_str() + 2, nullptr, 10);
+      HR<nop::StreamReader<std::stringstream>> inner{std::string(bytes.begin(), bytes.end())};
+      inner.chan = &chan;
+      nop::Deserializer<nop::BoundedReader<HR<nop::StreamReader<std::stringstream>>>> de{&inner, limit};
+      auto st = de.Read(&dest);
+      std::size_t pos = 0;
+      if (st) { inner.stream().clear(); pos = static_cast<std::size_t>(inner.stream().tellg()); }
+      finish(r, st, dest, pos);
     } else if (rk.rfind("b:", 0) == 0) {
       std::size_t limit = std::strtoull(rk.c_str() + 2, nullptr, 10);
       Heap h(bytes);
@@ -752,7 +762,7 @@ struct TypeRunner {
     if (!w.ok || !wo.ok) return;
     const std::string want_other = dump_str(other, true);
     for (auto& m : mutations(w.bytes, c.thorough ? 40 : 4)) {
-      std::string rk = rng.chance(40) ? "buf" : (rng.chance(50) ? "ped" : "b:" + std::to_string(rng.chance(50) ? m.size() : rng.below(m.size() + 9)) + ":buf");
+      std::string rk = rng.chance(40) ? "buf" : (rng.chance(50) ? "ped" : "b:" + std::to_string(rng.chance(50) ? m.size() : rng.below(m.size() + 9)) + (rng.chance(35) ? ":stream" : ":buf"));
       T dest{};
       AllocStats& a = alloc_stats();
       const std::size_t bound = 64 * sizeof(T) * (m.size() + 1) + 4096 * (m.size() + 1);
